@@ -166,7 +166,7 @@ type PoolProg struct {
 
 var destNames = []string{"o.bin", "out.obj", "a", "x.img", "naskfunc.obj", "ipl.bin", "very_long_destination_file_name.output", "b.o"}
 var tzs = []string{"UTC", "Asia/Tokyo", "America/New_York", "Pacific/Kiritimati", ""}
-var langs = []string{"C", "ja_JP.UTF-8", "en_US.UTF-8", ""}
+var langs = []string{"C", "ja_JP.UTF-8", "en_US.UTF-8", "", "ja_JP.SJIS", "ja_JP.eucJP", "de_DE.ISO-8859-1", "tr_TR.UTF-8"}
 
 func drawProcEnv(r *RNG, native bool) []string {
 	var env []string
@@ -187,7 +187,7 @@ func drawProcEnv(r *RNG, native bool) []string {
 		env = append(env, "SOURCE_DATE_EPOCH="+pick(r, []string{"0", "1", "1700000000", "4102444800"}))
 	}
 	if r.Chance(1, 3) {
-		env = append(env, "LC_ALL="+pick(r, []string{"C", "ja_JP.SJIS", "POSIX"}))
+		env = append(env, pick(r, []string{"LC_ALL", "LC_CTYPE", "LC_MESSAGES", "LANGUAGE"})+"="+pick(r, []string{"C", "ja_JP.SJIS", "POSIX", "ja_JP.eucJP", "ja_JP.UTF-8", "tr_TR.UTF-8"}))
 	}
 	if r.Chance(1, 3) {
 		env = append(env, "HOSTNAME="+pick(r, []string{"build1", "localhost"}), "TERM="+pick(r, []string{"dumb", "xterm-256color"}))
@@ -689,7 +689,7 @@ func buildPool(baseSeed uint64, nGen int, corpusDir string) []*PoolProg {
 	}
 	r := NewRNG(deriveSeed(baseSeed, 101, 0))
 	for i := 0; i < nGen; i++ {
-		ps := genProgram(r, fmt.Sprintf("gen%04d", i), r.Chance(2, 3))
+		ps := genProgram(r, fmt.Sprintf("gen%04d", i), r.Chance(2, 3), true)
 		a := add(ps[0], -1)
 		if len(ps) > 1 && a >= 0 {
 			b := add(ps[1], a)
